@@ -7,14 +7,74 @@ BIG = 1000000
 
 
 def eligible(case):
-    if case.get('n_jobs', 1) != 1:
+    if case.get('n_jobs', 1) != 1 and case.get('backend', 'threading') != 'threading':
         return False
     if case['kind'] == 'join':
         return case['meas'] in ('JACCARD', 'COSINE', 'DICE') and case.get('sc', 1) == 1
     return case['filt'] in ('POSITION', 'PREFIX', 'SIZE') and case['meas'] in ('JACCARD', 'COSINE', 'DICE', 'OVERLAP')
 
 
-def build(case, events, tables, tid):
+def build_all(case, events, tables, tid):
+    """One record per worker run.  With several jobs (threading backend) the events of each worker carry
+    its thread id; the chunk a worker processed is recovered from the split_table event."""
+    starts = [e for e in events if e['ev'] == 'worker_start']
+    if len(starts) <= 1:
+        one = build(case, events, tables, tid)
+        return [one] if one else []
+    splits = [e for e in events if e['ev'] == 'split']
+    if len(splits) != 1:
+        return []
+    sizes = splits[0]['sizes']
+    bounds, acc = [], 0
+    for sz in sizes:
+        bounds.append((acc, acc + sz))
+        acc += sz
+    by_thread = {}
+    for e in events:
+        if e['ev'] != 'split':
+            by_thread.setdefault(e['tid'], []).append(e)
+    rkey = case.get('rkey', 'id')
+    rattr = case.get('rattr', 's')
+    r_present = [k for k, v in zip(tables[1][rkey].tolist(), tables[1][rattr].tolist()) if not record.is_missing(v)]
+    if acc != len(r_present):
+        return []
+    out, used = [], set()
+    # a thread may run several chunks one after the other: cut its events at every worker_start
+    runs = []
+    for evs in by_thread.values():
+        cur = []
+        for e in evs:
+            if e['ev'] == 'index_built' and cur and any(x['ev'] == 'worker_end' for x in cur):
+                runs.append(cur)
+                cur = []
+            cur.append(e)
+        if cur:
+            runs.append(cur)
+    for evs in runs:
+        st = [e for e in evs if e['ev'] == 'worker_start']
+        if not st:
+            continue                      # events of the calling thread (missing_pairs, ...)
+        if len(st) != 1:
+            return []
+        keys = {record.key_code(e['r_key']) for e in evs if e['ev'] in ('probe', 'probe_empty')}
+        pick = None
+        for ci, (a, b) in enumerate(bounds):
+            if ci in used or b - a != st[0]['n_r']:
+                continue
+            if keys <= {record.key_code(k) for k in r_present[a:b]}:
+                pick = ci
+                break
+        if pick is None:
+            return []
+        used.add(pick)
+        one = build(case, evs, tables, tid * 100 + pick, r_range=bounds[pick])
+        if one is None:
+            return []
+        out.append(one)
+    return out
+
+
+def build(case, events, tables, tid, r_range=None):
     """-> (group key, record) or None when the events do not describe exactly one worker run."""
     ltable, rtable = tables
     starts = [e for e in events if e['ev'] == 'worker_start']
@@ -31,6 +91,8 @@ def build(case, events, tables, tid):
     R = [toks[('R', i)] for i in range(len(rkeys)) if toks[('R', i)] is not None]
     r_present = [rkeys[i] for i in range(len(rkeys)) if toks[('R', i)] is not None]
     l_present = [lkeys[i] for i in range(len(lkeys)) if toks[('L', i)] is not None]
+    if r_range is not None:
+        R, r_present = R[r_range[0]:r_range[1]], r_present[r_range[0]:r_range[1]]
     if [record.key_code(k) for k in starts[0]['l_keys']] != [record.key_code(k) for k in l_present]:
         return None
     # token string -> id (same abstraction as the API-level record)
